@@ -33,6 +33,11 @@ CLAIMED = {
     "C09": ("SMT (z3; exp/tan uninterpreted) over symbolic execution of the real CorrelationFunction constructor and "
             "addition code for every grouping of mixed analytic/value-defined components", "4/C09",
             "FFT-based component types and the measured-vs-declared reorganisation energy are outside the claim."),
+    "C12": ("SMT (z3 polynomial real arithmetic) over symbolic execution of the real LabSetup / liouville_pathway "
+            "orientational-averaging code: the three full contractions that fix an isotropic rank-4 average, the "
+            "bilinear form, rotation invariance (plane rotations) and fourth-power scaling", "4/C12",
+            "Pathway-level additivity (total = rephasing + non-rephasing; cancellation of cross peaks for uncoupled "
+            "molecules), line shapes and waiting-time evolution are not decided by this check."),
     "C13": ("SMT (z3 nonlinear real arithmetic with exact algebraic roots of unity) over symbolic execution of the "
             "real axis-conjugation and DFunction Fourier-transform code", "4/C13", ""),
     "C14": ("SMT (z3; IEEE exp under/overflow as axioms on an uninterpreted Exp; division-by-zero side "
@@ -55,5 +60,5 @@ CLAIMED = {
 }
 _NYB = "check not built yet in this round (design in DESIGN.md section 4); not claimed until its harness is sound"
 NOT_APPLICABLE = {p: _NYB for p in
-                  ["C%02d" % i for i in range(2, 20) if i not in (2, 3, 4, 5, 6, 7, 8, 9, 13, 14, 15, 16, 17, 19)]}
+                  ["C%02d" % i for i in range(2, 20) if i not in (2, 3, 4, 5, 6, 7, 8, 9, 12, 13, 14, 15, 16, 17, 19)]}
 SOURCE_COMMITS = []
